@@ -7,6 +7,7 @@ import (
 	"math/rand"
 	"net"
 	"os"
+	"os/exec"
 	"regexp"
 	"strings"
 	"sync"
@@ -219,21 +220,84 @@ func decIP(ip net.IP) net.IP {
 	return nil
 }
 
-// c05Exhaustive4: every IPv4 address in [lo, hi) (thorough tier: the 2^32 space split over children).
-func c05Exhaustive4(c *vk.Ctx, lo, hi uint64) bool {
+type range4 struct {
+	lo, hi  uint32
+	verdict string
+	name    string
+}
+
+// ranges4 is the same classification as destVerdict for IPv4, as integer ranges (fast path for
+// the exhaustive sweep); forbidden blocks first, so they win over overlapping special blocks.
+var ranges4 = func() []range4 {
+	var out []range4
+	for i, set := range [][]cidr{forbidden4, special4} {
+		for _, cb := range set {
+			base := binary.BigEndian.Uint32(cb.n.IP.To4())
+			ones, _ := cb.n.Mask.Size()
+			v := "reject"
+			if i == 1 {
+				v = "dontcare"
+			}
+			out = append(out, range4{base, base | uint32(uint64(0xffffffff)>>uint(ones)), v, cb.name})
+		}
+	}
+	return out
+}()
+
+func verdict4(u uint32) (string, string) {
+	for i := range ranges4 {
+		if u >= ranges4[i].lo && u <= ranges4[i].hi {
+			return ranges4[i].verdict, ranges4[i].name
+		}
+	}
+	return "accept", "public4"
+}
+
+// SweepIPv4 enumerates every IPv4 address in [lo, hi) in 4-byte and IPv4-mapped form against
+// RequirePublicIP; returns the number of addresses and a description of the first disagreement.
+func SweepIPv4(lo, hi uint64) (uint64, string) {
 	b := make(net.IP, 4)
 	m := make(net.IP, 16)
 	copy(m, net.IPv4(0, 0, 0, 0).To16())
+	// the fast integer-range classifier agrees with the CIDR-based one on the range boundaries
+	for _, rg := range ranges4 {
+		for _, u := range []uint32{rg.lo - 1, rg.lo, rg.hi, rg.hi + 1} {
+			binary.BigEndian.PutUint32(b, u)
+			v1, _ := destVerdict(b)
+			if v2, _ := verdict4(u); v1 != v2 {
+				return 0, fmt.Sprintf("classifier self-check failed for %s: %s vs %s", b, v1, v2)
+			}
+		}
+	}
 	for u := lo; u < hi; u++ {
 		binary.BigEndian.PutUint32(b, uint32(u))
 		copy(m[12:], b)
-		verdict, class := destVerdict(b)
+		verdict, class := verdict4(uint32(u))
 		e1 := onet.RequirePublicIP(b)
 		e2 := onet.RequirePublicIP(m)
 		if (verdict == "reject" && (e1 == nil || e2 == nil)) || (verdict == "accept" && (e1 != nil || e2 != nil)) {
-			c.Violation("C05/validator-disagrees-on-ipv4-address", map[string]any{"ip": b.String(), "class": class, "verdict": verdict, "plain_err": fmt.Sprint(e1), "mapped_err": fmt.Sprint(e2)})
-			return false
+			return u - lo, fmt.Sprintf("ip=%s class=%s verdict=%s plain_err=%v mapped_err=%v", b, class, verdict, e1, e2)
 		}
+	}
+	return hi - lo, ""
+}
+
+// c05Exhaustive4 runs the sweep of [lo, hi) in the race-free helper binary.
+func c05Exhaustive4(c *vk.Ctx, lo, hi uint64) bool {
+	bin := os.Getenv("VERIF_SWEEP_BIN")
+	if bin == "" {
+		c.Inconclusive("VERIF_SWEEP_BIN not set: exhaustive IPv4 sweep skipped")
+		return true
+	}
+	out, err := exec.Command(bin, fmt.Sprint(lo), fmt.Sprint(hi)).CombinedOutput()
+	res := strings.TrimSpace(string(out))
+	if strings.HasPrefix(res, "DISAGREE") {
+		c.Violation("C05/validator-disagrees-on-ipv4-address", res)
+		return false
+	}
+	if err != nil || !strings.HasPrefix(res, "OK ") {
+		c.Inconclusive(fmt.Sprintf("sweep helper failed: %v %s", err, res))
+		return true
 	}
 	c.EvalN("exhaustive-ipv4|both-forms", int64(hi-lo))
 	c.Count("ipv4_addresses_enumerated", int64(hi-lo))
@@ -688,6 +752,11 @@ func init() {
 			}
 			if c.Thorough() {
 				span := uint64(1) << 32 / 16
+				if v := os.Getenv("VERIF_C05_SPAN_LOG2"); v != "" { // measurement aid
+					var n uint
+					fmt.Sscan(v, &n)
+					span = uint64(1) << n
+				}
 				if !c05Exhaustive4(c, uint64(c.Batch)*span, uint64(c.Batch+1)*span) {
 					return
 				}
